@@ -821,8 +821,12 @@ def search_cases(unit, tier):
         first = shapes[unit["first"]] if unit["first"] is not None else None
         conds = conditions(pair, S_VALUES, S_STR)
         maxrows = BOUNDS[tier]["search_rows"]
+        small = row_shapes(pair, ["x", "", None])
         if first is None:
             sets = [[]]
+        elif tier == "quick":
+            # one row from the full universe alone, before and after every row of the small universe
+            sets = [[first]] + [[first, r] for r in small] + ([[r, first] for r in small] if first not in small else [])
         else:
             sets = ([first] + list(t) for n in range(0, maxrows) for t in itertools.product(shapes, repeat=n))
         for rows in sets:
@@ -832,7 +836,9 @@ def search_cases(unit, tier):
                 for rkc in (False, True):
                     yield {"kind": "search", "rows": rows, "row_keys_change": rkc, "kwargs": [c]}
     elif part == "two":        # every pair of conditions x row sets (<= 2 rows)
-        shapes = row_shapes(pair, S_VALUES)
+        shapes = row_shapes(pair, S_VALUES if tier != "quick" else ["x", "", None])
+        if unit["first"] >= len(shapes):
+            return
         first = shapes[unit["first"]]
         if tier == "quick":
             conds = conditions(pair, ["x", None], ["x"], absent=False)
@@ -977,7 +983,9 @@ def unit_cases(unit, tier):
     if p == "ini-extra":
         return itertools.chain.from_iterable(ini_blocks_cases(n, u) for n, u in INI_EXTRA[unit["name"]])
     if p == "ini-novalue":
-        return itertools.chain.from_iterable(ini_blocks_cases(n, u, allow=(False, True)) for n, u in INI_NOVALUE)
+        # bare names are only defined with allow_no_value (class docstring); without it the statement is silent
+        return (c for n, u in INI_NOVALUE for c in ini_blocks_cases(n, u, allow=(True,))
+                if any(e[2] is None for b in c["doc"]["blocks"] for e in b["entries"]))
     if p == "ini-values":
         return ini_value_cases()
     if p == "ini-names":
